@@ -18,17 +18,17 @@ static inline void cnt_clear(struct cnt* c) { c->n = 0; }
 struct Message g_generic, g_specific, g_derived, g_next; _Bool g_has_specific; unsigned g_finished_calls, g_prepare_calls; int g_last_prepare;
 static inline struct Message* cnt_front(const struct cnt* c) { __CPROVER_assert(c->n > 0, "[C20] front() on a non-empty deque"); return &g_next; }
 #define Message_storeLastData(m, i, x) env_store(m, i)
-static inline result_t env_store(struct Message* m, size_t index) { __CPROVER_assert(m != NULL, "[C20] message present"); int r = nondet_int(); __CPROVER_assume(r <= 1 && r >= -20); return (result_t)r; }
+static inline result_t env_store(struct Message* m, size_t index) { __CPROVER_assert(m != NULL, "[C20] message present"); int r = nondet_int(); __CPROVER_assume(r <= 1 && r >= -30); return (result_t)r; }
 static inline size_t Message_getCount(const struct Message* m) { return m->count; }
 static inline symbol_t Message_getDstAddress(const struct Message* m) { return m->dst; }
 static inline struct Message* Message_derive(struct Message* m, symbol_t dst, _Bool x) { g_derived = *m; g_derived.dst = dst; return &g_derived; }
 static inline struct Message* MM_getScanMessage(struct MM* mm, symbol_t dst) { return dst == 0xAA ? &g_generic : (g_has_specific ? &g_specific : NULL); }
 static inline void MM_add(struct MM* mm, _Bool byName, struct Message* m) { }
 #define Message_decodeLastData(m, a, b, c, d, e, f) env_decode(m)
-static inline result_t env_decode(struct Message* m) { int r = nondet_int(); __CPROVER_assume(r <= 1 && r >= -20); return (result_t)r; }
+static inline result_t env_decode(struct Message* m) { int r = nondet_int(); __CPROVER_assume(r <= 1 && r >= -30); return (result_t)r; }
 static inline void BH_setScanResult(struct BH* b, symbol_t dst, size_t index, int str) { }
 static inline void BH_setScanFinished(struct BH* b) { g_finished_calls = g_finished_calls + 1; }
-static inline result_t REQ_prepare(struct REQ* r, symbol_t master) { g_prepare_calls = g_prepare_calls + 1; __CPROVER_assert(r->m_index < r->m_message->count, "[C04,C09] the next telegram is prepared for an existing part"); int v = nondet_int(); __CPROVER_assume(v <= 1 && v >= -20); g_last_prepare = v; return (result_t)v; }
+static inline result_t REQ_prepare(struct REQ* r, symbol_t master) { g_prepare_calls = g_prepare_calls + 1; __CPROVER_assert(r->m_index < r->m_message->count, "[C04,C09] the next telegram is prepared for an existing part"); int v = nondet_int(); __CPROVER_assume(v <= 1 && v >= -30); g_last_prepare = v; return (result_t)v; }
 #include "gen_protos.h"
 #include "gen_funcs.inc"
 
@@ -37,20 +37,21 @@ struct REQ nondet_REQ(void); SymbolString nondet_SS(void); struct Message nondet
 void h_poll_notify(void) {
   struct REQ r = nondet_REQ(); struct Message m = nondet_Message(); SymbolString slave = nondet_SS(); int res = nondet_int();
   r.m_message = &m; g_prepare_calls = 0;
-  __CPROVER_assume(MSG_OK(&m) && r.m_index < m.count && res <= 0 && res >= -20 && r.m_master.m_data.n <= SS_CAP && slave.m_data.n <= SS_CAP);
+  __CPROVER_assume(MSG_OK(&m) && r.m_index < m.count && res <= 0 && res >= -30 && r.m_master.m_data.n <= SS_CAP && slave.m_data.n <= SS_CAP);
   size_t i0 = r.m_index;
   _Bool again = PollRequest_notify(&r, (result_t)res, &slave);
   __CPROVER_assert(!again || (res == RESULT_OK && r.m_index == i0 + 1 && r.m_index < m.count && g_prepare_calls == 1 && g_last_prepare >= RESULT_OK), "[C04] a poll request asks for a restart only after a successful exchange, for the next part of a chained message, with its telegram prepared");
   __CPROVER_assert(again || r.m_index <= i0 + 1, "[C04] no part is skipped");
   __CPROVER_assert(res != RESULT_ERR_NO_SIGNAL || !again, "[C04] no restart is asked for when the signal is lost (the queue is drained then)");
   if (again) { CANARY("next part"); }
+  if (res == RESULT_ERR_NO_SIGNAL) { CANARY("signal lost"); }
 }
 static inline unsigned long measure(const struct REQ* r) { return (((unsigned long)r->m_slaves.n * (MMAX + 1) + r->m_messages.n) * 2 + (r->m_message == &g_generic ? 1 : 0)) * (CMAX + 1) + (r->m_message->count - r->m_index); }
 void h_scan_notify(void) {
   struct REQ r = nondet_REQ(); SymbolString slave = nondet_SS(); int res = nondet_int(); struct Message cur = nondet_Message(); _Bool cur_is_generic = nondet_bool();
   g_generic = nondet_Message(); g_specific = nondet_Message(); g_next = nondet_Message(); g_has_specific = nondet_bool(); g_finished_calls = 0; g_prepare_calls = 0;
   r.m_message = cur_is_generic ? &g_generic : &cur;
-  __CPROVER_assume(MSG_OK(&cur) && MSG_OK(&g_generic) && MSG_OK(&g_specific) && MSG_OK(&g_next) && r.m_index < r.m_message->count && res <= 0 && res >= -20);
+  __CPROVER_assume(MSG_OK(&cur) && MSG_OK(&g_generic) && MSG_OK(&g_specific) && MSG_OK(&g_next) && r.m_index < r.m_message->count && res <= 0 && res >= -30);
   __CPROVER_assume(r.m_slaves.n <= SMAX && r.m_allMessages.n >= 1 && r.m_allMessages.n <= MMAX && r.m_messages.n <= r.m_allMessages.n && r.m_master.m_data.n <= SS_CAP && slave.m_data.n <= SS_CAP && r.m_notifyIndex <= 1);
   unsigned long m0 = measure(&r);
   _Bool again = ScanRequest_notify(&r, (result_t)res, &slave);
@@ -62,5 +63,6 @@ void h_scan_notify(void) {
   } else {
     __CPROVER_assert(g_finished_calls == 1, "[C04] a scan request that does not restart reports the scan as finished exactly once (it is not left in limbo)");
     CANARY("finished");
+    if (res == RESULT_ERR_NO_SIGNAL && r.m_slaves.n >= 2) { CANARY("signal lost with slaves left"); }
   }
 }
